@@ -14,7 +14,7 @@ Use from a check (checks/<ID>.py):
         def gen(self, tier):                        # regenerate + build; a failure is a broken tie
             return GenTie.tie("C09")                # (combine with the check's own generator if it has one)
 
-gen()        -> (ok, log)   run gotrans only (rewrites coq/Gen/GenFuns.v, GenPath.v, GenParse.v, GenSemCheck.v)
+gen()        -> (ok, log)   run gotrans only (rewrites coq/Gen/GenFuns.v, GenPath.v, GenParse.v, GenWild.v, GenEsc.v, GenSemCheck.v)
 build(pid)   -> (ok, log)   build the .vo closure of the property files of pid (only the imported
                             .vo of coq/Route and coq/Dispatch are made, never those whole areas)
 props(pid)   -> [("Gen", "Props_Gen....v"), ...]     pid None: all
@@ -37,6 +37,10 @@ FILES = {
     "Props_Gen_C20.v": ("C20",),                              # level
     "Props_Gen_C17.v": ("C17",),                              # CleanPath / bufApp (GenPath.v): C17/Model.v, C17/Spec.v
     "Props_Gen_C10.v": ("C10",),                              # Router.parseRoute (GenParse.v): Pattern/ParseRoute.v
+    # GenWild.v: parseWildcard (Pattern/ParseWildcard.v), isBlacklistedHeader + blacklistedHeader (C15/Redact.v),
+    # netutil.SplitHostZone (C18/ParseIP.v)
+    "Props_Gen_wild.v": ("C10", "C01", "C15", "C18"),
+    "Props_Gen_esc.v": ("C08", "C11", "C18"),                 # hexEscapeNonASCII (Dispatch/Redirect.v), clientip.trimMatchedEnds (C18/ParseIP.v): GenEsc.v
 }
 
 # the only .vo of other areas the Gen area imports: (area, targets, property files that need them; None = all)
@@ -45,12 +49,19 @@ DEPS = [
     ("Dispatch", ["Redirect.vo"], None),
     ("C17", ["Model.vo", "Spec.vo", "Proofs.vo", "ProofsModel.vo"], ("Props_Gen_C17.v",)),   # BridgeC17.v
     ("Pattern", ["Props_C10.vo"], ("Props_Gen_C10.v",)),      # BridgeC10.v: the model and C10's own theorems
+    # BridgeWild.v: the three models, C10's parseWildcard_never_panics, C15's sensitive_is_blacklisted
+    ("Pattern", ["ParseWildcard.vo", "ProofsWild.vo"], ("Props_Gen_wild.v",)),
+    ("C15", ["Redact.vo", "ProofsRedact.vo"], ("Props_Gen_wild.v",)),
+    ("C18", ["ParseIP.vo"], ("Props_Gen_wild.v", "Props_Gen_esc.v")),   # also BridgeEsc.v: trim_matched_ends
 ]
 
 
 # definitions that live in their own generated file: a refusal of one of them breaks only the ties
 # of the property files named here (gotrans drops the definition, the other files are complete)
-OWN_FILE = {"parseRoute": ("Props_Gen_C10.v",), "bufApp": ("Props_Gen_C17.v",), "CleanPath": ("Props_Gen_C17.v",)}
+OWN_FILE = {"parseRoute": ("Props_Gen_C10.v",), "bufApp": ("Props_Gen_C17.v",), "CleanPath": ("Props_Gen_C17.v",),
+            "parseWildcard": ("Props_Gen_wild.v",), "blacklistedHeader": ("Props_Gen_wild.v",),
+            "isBlacklistedHeader": ("Props_Gen_wild.v",), "SplitHostZone": ("Props_Gen_wild.v",),
+            "hexEscapeNonASCII": ("Props_Gen_esc.v",), "trimMatchedEnds": ("Props_Gen_esc.v",)}
 
 
 def broken_lemmas(log):
@@ -78,7 +89,7 @@ def props(pid=None):
 
 
 def gen():
-    """Regenerate coq/Gen/GenFuns.v (+ GenPath.v and GenParse.v, written next to it, + GenSemCheck.v) from the sources under test."""
+    """Regenerate coq/Gen/GenFuns.v (+ GenPath.v, GenParse.v and GenEsc.v, written next to it, + GenSemCheck.v) from the sources under test."""
     hb, lg = lib.build_harness("gotrans")
     if hb is None:
         return False, "gotrans does not build:\n" + lg
